@@ -29,7 +29,8 @@ RULE = ("tapped calls: signals of 1..200 samples (non-constant, sign-changing, i
         " Round-5 classes: one-element level arrays on longer signals, the flag as numpy.bool_."
         " Round-6 classes: two requests in a row without re-seeding (the second must add other noise, the first must be the seeded one)."
         " Round-7 classes: a 'huge' kind - 66 000..90 000 samples whose power varies along the series."
-        " Round-8: judged on what was ADDED (deviation x standardised tapped draw), so the deviation may be the generator's scale or multiplied onto unit draws; taps also on standard_normal / randn.")
+        " Round-8: judged on what was ADDED (deviation x standardised tapped draw), so the deviation may be the generator's scale or multiplied onto unit draws; taps also on standard_normal / randn."
+        " Round-10 classes: 1.1-1.6 million samples (more than 2**20, not a multiple of it) with power rising along the series.")
 REQUIRED_MONITORS = ["c15:consecutive_requests", "c15:tap", "c15:statistical", "c15:reproducible", "c15:same_object_again"]
 ASSUMPTIONS = ["SNR > 0; the global NumPy RNG is the documented noise source"]
 NSHARDS = 16
